@@ -64,13 +64,13 @@ pub assume_specification<T, U, F: FnOnce(T) -> U> [std::option::Option::<T>::map
     requires o is Some ==> f.requires((o->0,)),
     ensures o is None ==> r == d, o is Some ==> f.ensures((o->0,), r);
 impl Job {
-    // polling a job: may drain its tasks and mark it Done; id and annotation are never touched
+    // polling a job: may drain its tasks and mark it Done; id and annotation are never touched (PROVED for the real body in unit U18b)
     #[verifier::external_body]
     pub fn poll_done(&mut self) -> (r: Result<Option<Result<ExecutionResult, error::Error>>, error::Error>)
         ensures final(self).id == old(self).id, final(self).annotation == old(self).annotation,
             (r is Ok && r->Ok_0 is Some) ==> final(self).state is Done && final(self).tasks@.len() == 0,
     { unimplemented!() }
-    // Job::wait (jobs.rs): awaits the tasks back to front, popping each completed one; returns Ok once none is left (state Done)
+    // Job::wait (jobs.rs; PROVED for the real body in unit U18b): awaits the tasks back to front, popping each completed one; returns Ok once none is left (state Done)
     // or as soon as one reports Stopped (state Stopped); `?` on a task error.  id and annotation are never touched.
     #[verifier::external_body]
     pub fn wait(&mut self) -> (r: Result<ExecutionResult, error::Error>)
